@@ -519,4 +519,34 @@ theorem GoodT.rootNamed_seq (m : Mod) (e : String) (hk : m.kind = .seq) (hg : Go
     simp only [OV.C18.setName, RootNamed]
     exact ⟨by decide, hg.1, GoodAll.key cs hg.2⟩
 
+/-! ## subgraph nesting does not change realised names -/
+
+mutual
+  theorem visitB_eq_visit (ctl : List (List String)) : ∀ (m : Mod) (path top : List String)
+      (rest : List (List String)), visitB SubPolicy.code ctl path top rest m = visit top m
+    | .mk k n ps cs, path, top, rest => by
+      cases k
+      · simp only [visitB, visit, show SubPolicy.code.qualifyCurrent = true from rfl,
+          show SubPolicy.code.inheritParent = true from rfl, if_true]
+        split <;> rw [visitAllB_eq_visitAll ctl cs]
+      · simp only [visitB, visit]
+        exact visitAllB_eq_visitAll ctl cs path top rest
+      · simp only [visitB, visit, show SubPolicy.code.qualifyCurrent = true from rfl,
+          show SubPolicy.code.inheritParent = true from rfl, if_true]
+        split <;> rw [visitAllB_eq_visitAll ctl cs]
+  theorem visitAllB_eq_visitAll (ctl : List (List String)) : ∀ (cs : Mods) (path top : List String)
+      (rest : List (List String)), visitAllB SubPolicy.code ctl path top rest cs = visitAll top cs
+    | .nil, _, _, _ => by simp [visitAllB, visitAll]
+    | .cons k m r, path, top, rest => by
+      simp only [visitAllB, visitAll]
+      rw [visitB_eq_visit ctl m, visitAllB_eq_visitAll ctl r]
+end
+
+theorem realizeB_eq_realize (ctl : List (List String)) (root : Mod) :
+    realizeB SubPolicy.code ctl root = realize root := by
+  cases root with
+  | mk k n ps cs =>
+    simp only [realizeB, realize, callRoot]
+    split <;> rw [visitAllB_eq_visitAll ctl cs]
+
 end OV.C18
